@@ -12,7 +12,8 @@ RULE = ('each case = one accepted source x configs x up to N input scripts (re-d
         '(-g), machine-fault traps, host exceptions; non-trivial = >=20 ticks monitored; distinct = shape hash')
 ASSUMPTIONS = ['decided on concrete runs only (the abstract-interpretation half of the quantifier is outside this technique); '
                'path reach is reported as jz sites seen both ways / one way']
-REQUIRED_COUNTERS = ['ticks_monitored', 'cell_writes_checked', 'typed_reads_checked', 'stmt_boundaries_checked', 'jz_sites']
+REQUIRED_COUNTERS = ['ticks_monitored', 'cell_writes_checked', 'typed_reads_checked', 'stmt_boundaries_checked', 'jz_sites',
+                     'declared_type_stores_checked']
 
 DEVICE_ARG_FORMS = [
     "LOCATE 1, 2\nLOCATE 3, 4, 1\nLOCATE 3, 4, 1, 2, 3\nLOCATE , , 0\nPRINT 1\n",
@@ -49,7 +50,8 @@ def run_case(case):
     text, script0, meta = cases.source_of(case['base'])
     st = {'ticks_monitored': 0, 'cell_writes_checked': 0, 'typed_reads_checked': 0, 'stmt_boundaries_checked': 0,
           'jz_sites': 0, 'jz_both_ways': 0, 'jz_one_sided': 0, 'runs': 0, 'cell_accesses_checked': 0,
-          'reads_checked': 0, 'stack_values_checked': 0, 'machine_fault_traps': 0, 'language_traps': 0}
+          'reads_checked': 0, 'stack_values_checked': 0, 'machine_fault_traps': 0, 'language_traps': 0,
+          'declared_type_stores_checked': 0}
     viol = []
     k = case['k']
     cfgs = rt.CONFIGS6 if case.get('allcfg') else [rt.CONFIGS6[k % 6], rt.CONFIGS6[(k + 3) % 6]]
@@ -81,6 +83,7 @@ def run_case(case):
             st['cell_accesses_checked'] += ms['segment-bounds'].count
             st['reads_checked'] += ms['reads-write-nothing'].count
             st['stack_values_checked'] += ms['stack-value-contract'].count
+            st['declared_type_stores_checked'] += ms['declared-types'].count
             for a, s in ms['branch-coverage'].seen.items():
                 seen.setdefault(a, set()).update(s)
             cn = rt.cfg_name(cfg)
